@@ -474,6 +474,18 @@ pub fn adv_catalogue(extpk: &schema::PublicKey) -> Vec<AdvBlock> {
             vec![],
         ));
         add("rule-head-var-only-in-expr", b);
+        // a head variable the body does not bind, with a fact that matches the body: token
+        // blocks are refused at load (validate_variables), snapshots and builder values are not
+        // (added after the seeded change C09-4)
+        let mut b = block(v6, &["f"]);
+        b.facts_v2.push(fact(1024, vec![t_int(0)]));
+        b.rules_v2.push(rule(pred(1024, vec![t_var(1)]), vec![pred(1024, vec![t_var(2)])], vec![], vec![]));
+        add("rule-head-unbound-body-matches", b);
+        let mut b = block(v6, &["f"]);
+        b.facts_v2.push(fact(1024, vec![t_int(0)]));
+        b.rules_v2.push(rule(pred(1024, vec![t_var(2), t_var(0)]), vec![pred(1024, vec![t_var(2)])], vec![], vec![]));
+        b.checks_v2.push(check(vec![query(vec![pred(1024, vec![t_var(2), t_var(3)])], vec![], vec![])], None));
+        add("rule-head-partly-unbound", b);
     }
     out
 }
